@@ -17,11 +17,11 @@ L = re.escape(S + "*Policy.sanitize/")
 TABLE = [
     (re.escape(S) + r"\*Policy\.(Sanitize|SanitizeBytes|SanitizeReader|SanitizeReaderToWriter|sanitizeWithBuff)$", "C15 C16"),
     (r"sanitize\.go/(func/\*asStringWriter\.WriteString|type/asStringWriter|type/stringWriterWriter)$", "C15 C16"),
-    (L + r"around-switch$", "C14 C15 C16"),
+    (L + r"around-switch$", "C01 C02 C05 C06 C07 C08 C09 C14 C15 C16"),
     (L + r"case:html\.DoctypeToken$", "C01"),
     (L + r"case:html\.CommentToken$", "C01 C16"),
-    (L + r"case:html\.StartTagToken$", "C01 C02 C05 C07 C08 C09 C14"),
-    (L + r"case:html\.EndTagToken$", "C01 C05 C07 C08 C09 C14"),
+    (L + r"case:html\.StartTagToken$", "C01 C02 C05 C06 C07 C08 C09 C14"),
+    (L + r"case:html\.EndTagToken$", "C01 C05 C06 C07 C08 C09 C14"),
     (L + r"case:html\.SelfClosingTagToken$", "C01 C02 C05 C07 C08 C09 C14"),
     (L + r"case:html\.TextToken$", "C05 C06 C08"),
     (L + r"case:default$", "C14"),
